@@ -3,8 +3,7 @@
 
    The framing state is the buffer `s_msg` (idle = empty).  It evolves independently of the boards:
    s_msg after a byte is `next (s_msg s) b` whatever _parse does (including raising). *)
-From DS Require Import Base.Prelude Gen.RcvTables Model.RcvModel Proofs.RcvAssoc Proofs.RcvProofs
-  Proofs.RcvFraming.
+From DS Require Import Base.Prelude Gen.RcvTables Model.RcvModel Proofs.RcvAssoc Proofs.RcvProofs Proofs.RcvFraming.
 
 (* the buffer after any byte sequence is a function of the buffer before and of the bytes only *)
 Theorem C03_receiver_framing_independent : forall clk mkdate render bs s,
